@@ -73,7 +73,7 @@ class System(simple.SimpleSystem):
         p = live["p"]
         opt = p.opt
         k = op[0]
-        live["pre"] = {"nrows": len(opt._log["penalty"]), "knobs": p.knob_values(), "tflags": p.target_flags(), "vflags": p.vary_flags()}
+        live["pre"] = {"nrows": len(opt.log()), "knobs": p.knob_values(), "tflags": p.target_flags(), "vflags": p.vary_flags()}
         if k == "step":
             opt.step(op[1])
         elif k == "step_nobest":
@@ -85,7 +85,7 @@ class System(simple.SimpleSystem):
         elif k == "solve_n":
             opt.solve(n_steps=op[1])
         elif k == "reload":
-            n = len(opt._log["penalty"])
+            n = len(opt.log())
             i = {"first": 0, "mid": n // 2, "last": n - 1}[op[1]]
             live["pre"]["reload_row"] = p.log_table_rows()[i]
             opt.reload(i)
@@ -153,10 +153,10 @@ class System(simple.SimpleSystem):
         pre = live["pre"]
         issues = []
         rows = p.log_table_rows()
-        raw = p.log_rows()
+        raw = p.raw_log_rows()
         # the public table reports what the log holds
-        if len(rows) != len(raw) or any(a["knobs"] != b["knobs"] or a["penalty"] != b["penalty"] or a["vary_active"] != b["vary_active"]
-                                        or a["target_active"] != b["target_active"] for a, b in zip(rows, raw)):
+        if raw is not None and (len(rows) != len(raw) or any(a["knobs"] != b["knobs"] or a["penalty"] != b["penalty"] or a["vary_active"] != b["vary_active"]
+                                        or a["target_active"] != b["target_active"] for a, b in zip(rows, raw))):
             issues.append(self.issue(hist, op, "Optimize.log() disagrees with the recorded log"))
             return issues
         # every row is reproducible by an independent evaluation
